@@ -16,13 +16,13 @@ LEVEL = "exploration"
 RULE = ("every typed request class that has an answer class (25 pairs) x Result-Code alphabet (boundary set: "
         "all library constants + x000/x001/x999 of every family + 32-bit boundaries; on two pairs every code "
         "0..6999 quick / 0..65535 thorough; thorough also every code 0..6999 on all pairs) x {RC only, ER only, "
-        "RC+ER, RC with E preset by the handler, RC+ER with E preset} x request Session-Id length residues 0..3 x identifier alphabet; two paths (decorate_answer, "
+        "RC+ER, each of them with E preset by the handler, RC / RC+ER with an AVP changed in place after construction} x request Session-Id length residues 0..3 x identifier alphabet; two paths (decorate_answer, "
         "callback_route). A case is one (pair, code, mode, session-id, identifiers, path); distinct by "
         "construction; non-trivial = codes that are not multiples of 1000 or cases with an Experimental-Result")
 ASSUMPTIONS = [
     "E flag oracle: for a sent answer whose Result-Code n has n % 1000 != 0, E set iff n // 1000 in {3,4,5}; "
-    "multiples of 1000 and answers whose Result-Code was dropped in favour of an Experimental-Result are "
-    "unconstrained; an answer with neither must have E clear",
+    "multiples of 1000 are unconstrained; an answer sent without a Result-Code (dropped in favour of an "
+    "Experimental-Result, or never there) must have E clear",
     "the handler returns a fresh answer of the request's answer class, with the E flag clear or already set by "
     "the handler (modes '+e')",
     "in-process Worker with a stand-in manager (vk/inproc.py); thresholds' timeouts set to 0",
@@ -77,6 +77,14 @@ def make_answer(akey, code, mode):
         ans = make_answer(akey, code, mode[:-2])
         if ans is not None:
             ans.header.set_error_bit(True)
+        return ans
+    if mode.endswith("~"):
+        # the handler changes an AVP of its answer in place after building it (no refresh() of its own)
+        ans = make_answer(akey, code, mode[:-1])
+        if ans is not None and ans.has_avp("origin_host_avp"):
+            ans.origin_host_avp.data = b"a.much.longer.origin.host.example"
+        elif ans is not None:
+            return None
         return ans
     classes = c09.discover()
     cls = classes[akey]
@@ -144,8 +152,10 @@ def judge(rep, req, ans_sent, code, mode, path, pair, wit):
             if e_flag != want:
                 errs.append((f"e-flag:{'missing' if want else 'spurious'}:fam{min(n // 1000, 7)}",
                              f"Result-Code {n}: E flag is {e_flag}, family {n // 1000} demands {want}"))
-    if not rcs and not ers and e_flag:
-        errs.append(("e-flag:without-result", "E flag set on an answer without Result-Code and Experimental-Result"))
+    if not rcs and e_flag:
+        # the statement ties the flag to the Result-Code that is sent: none sent, flag clear
+        errs.append(("e-flag:without-result-code", "E flag set on an answer sent without a Result-Code"
+                                                   + (" (Experimental-Result only)" if ers else "")))
     if h.get_flags() & 0x0f:
         errs.append(("reserved-flags", f"flags 0x{h.get_flags():02x}"))
     for k, text in dict(errs).items():
@@ -230,7 +240,8 @@ def run(report, tier, seed):
     # (a) all pairs x boundary codes x all modes x all sids x one identifier pair, both paths
     for p in ps:
         shards.append(([p], bcodes, ("rc", "er", "both"), SIDS, [(0x11223344, 0x55667788)], both))
-        shards.append(([p], bcodes, ("rc+e", "both+e"), SIDS[:2], [(0x11223344, 0x55667788)], both))
+        shards.append(([p], bcodes, ("rc+e", "both+e", "er+e"), SIDS[:2], [(0x11223344, 0x55667788)], both))
+        shards.append(([p], [2001, 5012], ("rc~", "both~"), SIDS, [(0x11223344, 0x55667788)], both))
     # (b) all pairs x identifier alphabet (complete product) x one failing code
     shards.append((ps, [5012], ("rc",), SIDS[:1], idpairs, both))
     # (c) every code in a range on two pairs (thorough: all pairs 0..6999, two pairs 0..65535)
